@@ -41,6 +41,7 @@ import (
 	"github.com/rpcpool/yellowstone-faithful/gsfa/manifest"
 	"github.com/rpcpool/yellowstone-faithful/indexes"
 	"github.com/rpcpool/yellowstone-faithful/indexmeta"
+	"github.com/rpcpool/yellowstone-faithful/ipld/ipldbindcode"
 	"github.com/rpcpool/yellowstone-faithful/iplddecoders"
 	solanatxmetaparsers "github.com/rpcpool/yellowstone-faithful/solana-tx-meta-parsers"
 	"github.com/rpcpool/yellowstone-faithful/tooling"
@@ -62,14 +63,17 @@ type c12Case struct {
 }
 
 type c12Truth struct {
-	Cids    [][]byte    `json:"cids"`
-	Sigs    [][]byte    `json:"sigs"`
-	Slots   []uint64    `json:"slots"`
-	Addrs   [][]byte    `json:"addrs"`
-	LogRecs [][2]uint64 `json:"logrecs"`
-	Secs    [][2]uint64 `json:"secs"`
-	Nodes   []string    `json:"nodes"` // seed file names of single nodes
-	Metas   []string    `json:"metas"`
+	Cids      [][]byte    `json:"cids"`
+	Sigs      [][]byte    `json:"sigs"`
+	Slots     []uint64    `json:"slots"`
+	Addrs     [][]byte    `json:"addrs"`
+	LogRecs   [][2]uint64 `json:"logrecs"`
+	Secs      [][2]uint64 `json:"secs"`
+	Nodes     []string    `json:"nodes"` // seed file names of single nodes
+	Metas     []string    `json:"metas"`
+	FrameTx   []string    `json:"frametx"` // transaction nodes whose metadata spans several frames
+	Frames    []string    `json:"frames"`  // every DataFrame section: file "frame-<i>", CID in FrameCids[i]
+	FrameCids [][]byte    `json:"framecids"`
 }
 
 type c12Seeds struct {
@@ -179,6 +183,23 @@ func c12BuildSeeds(t *testing.T, dir string) {
 			name := fmt.Sprintf("node-k%d-%d", s.Kind, i)
 			os.WriteFile(filepath.Join(dir, name), s.Data, 0o644)
 			tr.Nodes = append(tr.Nodes, name)
+		}
+	}
+	for i, s := range l.built.Sections {
+		if s.Kind == 6 {
+			name := fmt.Sprintf("frame-%d", i)
+			os.WriteFile(filepath.Join(dir, name), s.Data, 0o644)
+			tr.Frames = append(tr.Frames, name)
+			tr.FrameCids = append(tr.FrameCids, s.Cid.Bytes())
+		}
+	}
+	for _, bt := range l.built.Blocks {
+		for _, tt := range bt.Txs {
+			if tt.Spec.MetaFrames > 1 && len(tr.FrameTx) < 3 {
+				name := fmt.Sprintf("frametx-%d", tt.Section)
+				os.WriteFile(filepath.Join(dir, name), l.built.Sections[tt.Section].Data, 0o644)
+				tr.FrameTx = append(tr.FrameTx, name)
+			}
 		}
 	}
 	nm := 0
@@ -401,6 +422,19 @@ func c12pos(format, seedName string, data []byte, c c12Case) (pos int, width int
 }
 
 func c12classValue(class string, orig uint64, size int) uint64 {
+	if strings.HasPrefix(class, "unit") {
+		u := 0
+		if i := strings.IndexByte(class, ':'); i >= 0 {
+			u, _ = strconv.Atoi(class[i+1:])
+		}
+		switch {
+		case strings.HasPrefix(class, "unitm1"):
+			return uint64(u) - 1
+		case strings.HasPrefix(class, "unitp1"):
+			return uint64(u) + 1
+		}
+		return uint64(u)
+	}
 	switch class {
 	case "zero":
 		return 0
@@ -499,8 +533,15 @@ func c12Jobs(s *c12Seeds, cases []c12Case, seed int64, quick bool) []c12Job {
 			}
 			for _, pos := range positions {
 				pos := pos
-				jobs = append(jobs, c12Job{Parser: parser, Seed: seedName, Mut: fmt.Sprintf("%s.%s@%d/%d=%s", c.Format, c.Field, pos, width, c.Class), Class: c.Class, Role: c.Role, Expect: c.Expect,
-					gen: func() []byte { return c12applyField(data, pos, width, c.Enc, c.Class) }})
+				cls := c.Class
+				if strings.HasPrefix(cls, "unit") {
+					if c.Unit <= 0 {
+						continue
+					}
+					cls = fmt.Sprintf("%s:%d", c.Class, c.Unit)
+				}
+				jobs = append(jobs, c12Job{Parser: parser, Seed: seedName, Mut: fmt.Sprintf("%s.%s@%d/%d=%s", c.Format, c.Field, pos, width, cls), Class: c.Class, Role: c.Role, Expect: c.Expect,
+					gen: func() []byte { return c12applyField(data, pos, width, c.Enc, cls) }})
 			}
 		}
 	}
@@ -524,6 +565,14 @@ func c12Jobs(s *c12Seeds, cases []c12Case, seed int64, quick bool) []c12Job {
 	}
 	for _, n := range s.truth.Metas {
 		targets = append(targets, ps{"txmeta", n, false, false})
+	}
+	for i, n := range s.truth.Frames {
+		if i < 6 {
+			targets = append(targets, ps{"frames", n, false, true})
+		}
+	}
+	for _, n := range s.truth.FrameTx {
+		targets = append(targets, ps{"frames-tx", n, false, true})
 	}
 	scale := 1
 	if !quick {
@@ -893,6 +942,20 @@ func c12Run(s *c12Seeds, job c12Job, data []byte, scratch string) (res string) {
 				_, _, err := ll.ReadWithSize(r[0], r[1])
 				note(err)
 			}
+			// the size a reader derives from the record's own length prefix (what Read(offset) computes), capped at the
+			// 16 MiB an index entry can express
+			offs := []uint64{0}
+			for _, r := range tr.LogRecs {
+				offs = append(offs, r[0])
+			}
+			for _, off := range offs {
+				if off < uint64(len(data)) {
+					if pl, n := binary.Uvarint(data[off:]); n > 0 && pl < 1<<24 {
+						_, _, err := ll.ReadWithSize(off, uint64(n)+pl)
+						note(err)
+					}
+				}
+			}
 			ll.Close()
 		}
 		os.Remove(fp)
@@ -975,6 +1038,39 @@ func c12Run(s *c12Seeds, job c12Job, data []byte, scratch string) (res string) {
 		iplddecoders.DecodeTransaction(data)
 		iplddecoders.DecodeRewards(data)
 		iplddecoders.DecodeDataFrame(data)
+	case p == "frames" || p == "frames-tx":
+		// reassembly of multi-frame payloads when one continuation frame (or the node embedding the first frame) is arbitrary bytes
+		getter := func(ctx context.Context, want cid.Cid) (*ipldbindcode.DataFrame, error) {
+			for i, cb := range tr.FrameCids {
+				if bytes.Equal(cb, want.Bytes()) {
+					raw := s.files[tr.Frames[i]]
+					if p == "frames" && tr.Frames[i] == job.Seed {
+						raw = data
+					}
+					return iplddecoders.DecodeDataFrame(raw)
+				}
+			}
+			return nil, fmt.Errorf("no such frame")
+		}
+		txs := tr.FrameTx
+		if p == "frames-tx" {
+			txs = []string{job.Seed}
+		}
+		for _, name := range txs {
+			raw := s.files[name]
+			if p == "frames-tx" {
+				raw = data
+			}
+			tx, err := iplddecoders.DecodeTransaction(raw)
+			note(err)
+			if err != nil {
+				continue
+			}
+			_, err = tooling.LoadDataFromDataFrames(&tx.Metadata, getter)
+			note(err)
+			_, err = tooling.LoadDataFromDataFrames(&tx.Data, getter)
+			note(err)
+		}
 	case p == "txmeta":
 		buf := data
 		if strings.HasSuffix(job.Seed, "-zstd") {
